@@ -646,6 +646,12 @@ func (s *Stream) ProcessSync(data map[string]any) (map[string]any, error) {
 		return nil, fmt.Errorf("Synchronous processing is not supported for MATCH_RECOGNIZE queries.")
 	}
 
+	// After Stop no sink may be invoked any more: like Emit, a synchronous call on a stopped
+	// stream is a no-op.
+	if atomic.LoadInt32(&s.stopped) != 0 {
+		return nil, nil
+	}
+
 	// Directly process data and return result. processDirectDataSync applies the
 	// filter after JOIN enrichment so WHERE can reference joined columns.
 	return s.processDirectDataSync(data)
